@@ -205,9 +205,16 @@ struct Slots {
     own_c: Option<Datum<Command>>,
     ext_s: Option<Datum<State>>,
     ext_c: Option<Datum<Command>>,
+    /// whether the monitor's last link operation left the two terminals connected
+    linked: bool,
 }
 impl Slots {
     fn note(&mut self, o: &TermOps) {
+        match o.link {
+            1 | 2 => self.linked = true,
+            3 | 4 => self.linked = false,
+            _ => {}
+        }
         if let Some((t, v)) = o.ext_s {
             self.ext_s = Some(Datum::new(Time(t), st(v)));
         }
@@ -221,6 +228,117 @@ impl Slots {
             self.own_c = Some(Datum::new(Time(t), c));
         }
     }
+}
+/// Independent model of what the wrapper's terminal sees (its combined read), computed only from what
+/// the MONITOR wrote into the own and the connected terminal's slots and from the link operations it
+/// performed — so that a wrong combined read cannot hide behind "whatever was read was handed on".
+/// Used for the actuator and PID wrappers (which never write to a terminal themselves; the encoder
+/// wrapper's clause does not involve the combined read). Per the terminal's documented behaviour:
+/// * state = the only existing one (identical), or the mean of own and partner's, each component
+///   within 2 ulps of the f64 mean rounded to f32 (not asserted when the f32 sum would overflow or the
+///   mean is below 2*f32::MIN_POSITIVE — association / scaling order is not promised), stamped with
+///   the newer of the two state stamps;
+/// * command = the newer of the two commands (either one on equal stamps), identical;
+/// * combined = both, with the state's timestamp when there is a state (with only a command the
+///   timestamp is not asserted); nothing iff there is neither a state nor a command.
+/// Returns false after recording a violation `C20/<wrapper>/terminal-sees/<field>`.
+fn check_sees(rep: &mut Report, wrapper: &str, sub: &'static str, case: u64, round: usize, got: &Option<Datum<TerminalData>>, m: &Slots, hist: &dyn Fn() -> String) -> bool {
+    let (ps, pc) = if m.linked { (m.ext_s, m.ext_c) } else { (None, None) };
+    let ctx = |what: String| format!("round {}: {}; the wrapper's terminal reads {:?}; monitor wrote own state {:?}, own command {:?}, partner state {:?}, partner command {:?}, linked = {}; {}", round, what, got, m.own_s, m.own_c, m.ext_s, m.ext_c, m.linked, hist());
+    macro_rules! bad {
+        ($field:expr, $what:expr) => {{
+            rep.violation(&format!("C20/{}/terminal-sees/{}", wrapper, $field), sub, case, ctx($what));
+            return false;
+        }};
+    }
+    rep.eval();
+    let any = m.own_s.is_some() || ps.is_some() || m.own_c.is_some() || pc.is_some();
+    let d = match got {
+        None => {
+            if any {
+                bad!("presence", "the terminal reports nothing although a state or command is visible to it".to_string());
+            }
+            rep.tally(&format!("{}_terminal_sees_compared/nothing", wrapper));
+            return true;
+        }
+        Some(d) => {
+            if !any {
+                bad!("presence", "the terminal reports data although nothing was written to it or to a connected terminal".to_string());
+            }
+            d
+        }
+    };
+    // ---- state
+    let state_stamp: Option<Time> = match (m.own_s, ps) {
+        (None, None) => {
+            if d.value.state.is_some() {
+                bad!("state", "a state is reported although none exists".to_string());
+            }
+            None
+        }
+        (Some(x), None) | (None, Some(x)) => {
+            if !opt_same(&d.value.state, &Some(x.value), ssame) {
+                bad!("state", format!("the only existing state is {:?}", x.value));
+            }
+            rep.tally(&format!("{}_terminal_sees_compared/single_state", wrapper));
+            Some(x.time)
+        }
+        (Some(a), Some(b)) => {
+            let g = match d.value.state {
+                Some(g) => g,
+                None => bad!("state", "no state is reported although two exist".to_string()),
+            };
+            for (name, x, y, z) in [("position", a.value.position, b.value.position, g.position), ("velocity", a.value.velocity, b.value.velocity, g.velocity), ("acceleration", a.value.acceleration, b.value.acceleration, g.acceleration)] {
+                let sum = x as f64 + y as f64;
+                let mean = sum / 2.0;
+                if sum.abs() >= f32::MAX as f64 || mean.abs() < 2.0 * f32::MIN_POSITIVE as f64 {
+                    rep.tally("terminal_sees_mean_not_asserted(overflowing_sum_or_tiny)");
+                    continue;
+                }
+                let dist = ulp_dist(z, mean as f32);
+                rep.max("terminal_sees_mean_ulp_dist", dist as f64);
+                if dist > 2 {
+                    bad!("state", format!("{} {} is not the mean of {} and {} (f64 mean rounded: {}, {} ulps away)", name, f(z), f(x), f(y), f(mean as f32), dist));
+                }
+                rep.tally("terminal_sees_state_mean_components_compared");
+            }
+            rep.tally(&format!("{}_terminal_sees_compared/mean_state", wrapper));
+            Some(if a.time >= b.time { a.time } else { b.time })
+        }
+    };
+    // ---- command
+    let cmd_ok = match (m.own_c, pc) {
+        (None, None) => d.value.command.is_none(),
+        (Some(x), None) | (None, Some(x)) => opt_same(&d.value.command, &Some(x.value), csame),
+        (Some(a), Some(b)) => {
+            if a.time == b.time {
+                rep.tally("terminal_sees_command_tie(either_accepted)");
+                opt_same(&d.value.command, &Some(a.value), csame) || opt_same(&d.value.command, &Some(b.value), csame)
+            } else {
+                rep.tally("terminal_sees_newer_command_selected");
+                opt_same(&d.value.command, &Some(if a.time > b.time { a.value } else { b.value }), csame)
+            }
+        }
+    };
+    if !cmd_ok {
+        bad!("command", "the reported command is not the newer of the own and the partner's command".to_string());
+    }
+    // ---- timestamp: the state's when there is a state
+    match state_stamp {
+        Some(t) => {
+            if d.time != t || d.value.time != t {
+                bad!("time", format!("there is a state stamped {:?} but the combined data carry {:?} (datum) / {:?} (payload)", t, d.time, d.value.time));
+            }
+            rep.tally(&format!("{}_terminal_sees_time_compared", wrapper));
+            if let Some(c) = match (m.own_c, pc) { (Some(a), Some(b)) => Some(a.time.max(b.time)), (Some(a), None) | (None, Some(a)) => Some(a.time), _ => None } {
+                if c > t {
+                    rep.tally(&format!("{}_terminal_sees_time_compared/command_newer_than_state", wrapper));
+                }
+            }
+        }
+        None => rep.tally("terminal_sees_time_not_asserted(no_state)"),
+    }
+    true
 }
 /// Expected views of (own, ext) for the coming update: the monitor's own reads right now, with the slot
 /// reads replaced by what the monitor wrote. None if the monitor's own read fails (not judged here).
@@ -495,6 +613,10 @@ fn run_act(rep: &mut Report, sub: &'static str, case: u64, rounds: &[SetRound], 
                 return;
             }
         };
+        // ---- (m) what the terminal sees, against the monitor's own model of the slots it wrote
+        if !check_sees(rep, "actuator", sub, case, i, &before, &slots, &hist) {
+            return;
+        }
         let (l0, o0) = {
             let m = rec.borrow();
             (m.log.len(), m.order.len())
@@ -833,6 +955,10 @@ fn run_pid(rep: &mut Report, sub: &'static str, case: u64, c: &PidCase, observe:
                 return;
             }
         };
+        // ---- (m) what the terminal sees, against the monitor's own model of the slots it wrote
+        if !check_sees(rep, "pid", sub, case, i, &before, &slots, &hist) {
+            return;
+        }
         // feed the twin the same time / state / command
         let twin_res: Result<NothingOrError<E>, String> = match &before {
             Some(d) => {
@@ -1092,6 +1218,14 @@ fn main() {
         rep.floor(&format!("{}_inner_reads_compared", w), 100_000 * k);
         rep.floor(&format!("{}_inner_observations/in=update", w), 5_000 * k);
     }
+    // independent model of the terminal's combined read
+    for w in ["actuator", "pid"] {
+        rep.floor(&format!("{}_terminal_sees_compared/nothing", w), 2_000 * k);
+        rep.floor(&format!("{}_terminal_sees_compared/single_state", w), 10_000 * k);
+        rep.floor(&format!("{}_terminal_sees_compared/mean_state", w), 1_000 * k);
+        rep.floor(&format!("{}_terminal_sees_time_compared/command_newer_than_state", w), 1_000 * k);
+    }
+    rep.floor("terminal_sees_newer_command_selected", 1_000 * k);
     rep.floor("actuator_inner_observations/in=impl_set", 5_000 * k);
     rep.floor("pid_inner_observations/in=impl_set", 5_000 * k);
     rep.floor("encoder_inner_observations/in=get", 5_000 * k);
